@@ -459,6 +459,32 @@ func c04Malformed(s *Svc, m *spec.Method, l *Layout, r *MethodResult) {
 			if e.K == spec.KString || e.K == spec.KBytes {
 				vs = append(vs, variant{"body-wrong-json-type", func(_ *http.Request, body *[]byte) { *body = []byte(`{"` + p.Wire + `":12}`) }})
 			}
+			if e.K == spec.KUnion {
+				// OneOf union: {"Type": alternative, "Value": JSON text}; malformed Value texts,
+				// an undeclared alternative and a missing Value
+				for _, alt := range e.Attrs {
+					alt := alt
+					ak := sp.Eff(alt.T).K
+					wrong := `"zz"`
+					if ak == spec.KString || ak == spec.KBytes || ak == spec.KAny {
+						wrong = `12`
+					}
+					if ak != spec.KAny {
+						vs = append(vs, variant{"union-value-wrong-json-type-" + typeClass(sp, alt.T), func(_ *http.Request, body *[]byte) {
+							*body = []byte(`{"` + p.Wire + `":{"Type":"` + alt.Name + `","Value":` + fmt.Sprintf("%q", wrong) + `}}`)
+						}})
+					}
+					vs = append(vs, variant{"union-value-invalid-json-" + typeClass(sp, alt.T), func(_ *http.Request, body *[]byte) {
+						*body = []byte(`{"` + p.Wire + `":{"Type":"` + alt.Name + `","Value":"{"}}`)
+					}})
+				}
+				vs = append(vs, variant{"union-undeclared-alternative", func(_ *http.Request, body *[]byte) {
+					*body = []byte(`{"` + p.Wire + `":{"Type":"nope","Value":"1"}}`)
+				}})
+				vs = append(vs, variant{"union-missing-value", func(_ *http.Request, body *[]byte) {
+					*body = []byte(`{"` + p.Wire + `":{"Type":"` + e.Attrs[0].Name + `"}}`)
+				}})
+			}
 			vs = append(vs, variant{"body-invalid-json", func(_ *http.Request, body *[]byte) { *body = []byte(`{"` + p.Wire + `":`) }})
 			vs = append(vs, variant{"body-wrong-top-level-type", func(_ *http.Request, body *[]byte) { *body = []byte(`[1]`) }})
 			if p.Req == "required" {
